@@ -26,77 +26,95 @@ def cache_flow(ctx: Ctx) -> RuleResult:
         r.ob(False)
         r.violate("no pickle.load in the package", "tawazi/_dag/dag.py", "from_cache is never read: nothing can be reused", None)
         return r
-    r.require(len(hits) == 1, "several pickle.load sites")
-    f, ld = hits[0]
-    var = dotted(ld.targets[0])
-    r.require(var is not None, "loaded mapping not bound to a name")
-    r.ob(True, {"source": norm_src(ld), "in": f.short})
-    # 1. entries of the loaded mapping are written into a mapping M
-    M = None
-    how = None
-    for n in iter_own_nodes(f.node):
-        if isinstance(n, ast.For) and isinstance(n.iter, ast.Call) and isinstance(n.iter.func, ast.Attribute) \
-                and n.iter.func.attr == "items" and dotted(n.iter.func.value) == var and isinstance(n.target, ast.Tuple):
-            k, v = [dotted(x) for x in n.target.elts]
-            for b in own_walk(n):
-                if isinstance(b, ast.Call) and isinstance(b.func, ast.Attribute) and b.func.attr in ("force_set", "__setitem__", "setdefault") \
-                        and len(b.args) == 2 and dotted(b.args[0]) == k and dotted(b.args[1]) == v:
-                    M, how = dotted(b.func.value), b.func.attr
-                if isinstance(b, ast.Assign) and isinstance(b.targets[0], ast.Subscript) and dotted(b.targets[0].slice) == k \
-                        and dotted(b.value) == v:
-                    M, how = dotted(b.targets[0].value), "item assignment"
-        if isinstance(n, ast.Call) and isinstance(n.func, ast.Attribute) and n.func.attr == "update" and n.args and dotted(n.args[0]) == var:
-            M, how = dotted(n.func.value), "update"
-    # every entry of the file is merged: the loop does not filter them by the executor's own selection
-    from .ref import _if_chains as _chains_of
+    r.require(len(hits) <= 3, "more than three pickle.load sites")
 
-    ch_ = _chains_of(f.node)
-    for n in iter_own_nodes(f.node):
-        if isinstance(n, ast.For) and isinstance(n.iter, ast.Call) and isinstance(n.iter.func, ast.Attribute) \
-                and n.iter.func.attr == "items" and dotted(n.iter.func.value) == var:
-            loop_tests = ch_.get(id(n), ())
-            for b in own_walk(n):
-                st_ = None
-                if isinstance(b, ast.Expr) and isinstance(b.value, ast.Call) and isinstance(b.value.func, ast.Attribute) \
-                        and b.value.func.attr in ("force_set", "__setitem__", "setdefault"):
-                    st_ = b
-                elif isinstance(b, ast.Assign) and isinstance(b.targets[0], ast.Subscript):
-                    st_ = b
-                if st_ is None:
-                    continue
-                extra = [t for t, v_ in ch_.get(id(st_), ()) if all(t is not t0 for t0, _ in loop_tests)]
-                sel = [t for t in extra if any(isinstance(x, ast.Attribute) and x.attr in ("graph", "target_nodes", "exclude_nodes", "root_nodes", "xn_dict")
-                                                  for x in ast.walk(t))]
-                r.ob(not sel, {"merge of the cached entries filtered by": [norm_src(t) for t in extra] or None})
-                # ... nor by the entry itself: whatever the key and the value (None, 0, '' are results like any other), the entry is merged
-                from .val import reach_conditions
+    class _Done(Exception):
+        pass
 
-                ent = {x.id for x in ast.walk(n.target) if isinstance(x, ast.Name)}
-                inner = reach_conditions(n, st_) or []
-                dep = [(c_, p_) for c_, p_ in inner if ent & names_in(c_)]
-                r.ob(not dep, {"in": f.short, "cached entry merged whatever its key / value": not dep})
-                if dep:
-                    r.violate(f"{f.short}: a cached entry is merged only when {('' if dep[0][1] else 'not ') + norm_src(dep[0][0])}", f.loc(st_),
-                              "an entry of the cache file that fails the test never reaches the scheduler: the node is in the file and is "
-                              "executed again all the same (a node that really returned None / 0 / '' repeats its side effects)",
-                              norm_src(dep[0][0]))
-                if sel:
-                    r.violate(f"{f.short}: cached entries are merged only for nodes of this executor's selection", f.loc(st_),
-                              "a result that is in the file but outside the restart's selection is dropped: the value comes back as None, "
-                              "and a cache file re-written by this run loses it (the next restart recomputes it)", norm_src(sel[0]))
-    merge = _display_merge(f, var)
-    if M is None and merge is not None:
-        M, how = merge["target"], "dict display merge"
-    r.ob(M is not None, {"entries written into": M, "by": how})
-    if M is None:
-        r.violate(f"{f.short}: the unpickled mapping is not merged, entry by entry, into a results map", f.loc(ld),
-                  "the cached id -> value entries never reach the results handed to the scheduler: every node is silently "
-                  "recomputed (or the restart crashes)", norm_src(ld))
-        return r
-    # 2. M reaches the scheduler: returned and passed by the callers as the results argument of run_subgraph, or M is the
-    #    attribute the callers pass
-    sinks = 0
-    if "." not in M:
+    def _one(f, ld) -> int:
+        """The flow of one loader site; returns the number of executor entry points that hand its merged map to run_subgraph."""
+        sinks = 0
+        var = dotted(ld.targets[0])
+        r.require(var is not None, "loaded mapping not bound to a name")
+        r.ob(True, {"source": norm_src(ld), "in": f.short})
+        # 1. entries of the loaded mapping are written into a mapping M
+        M = None
+        how = None
+        for n in iter_own_nodes(f.node):
+            if isinstance(n, ast.For) and isinstance(n.iter, ast.Call) and isinstance(n.iter.func, ast.Attribute) \
+                    and n.iter.func.attr == "items" and dotted(n.iter.func.value) == var and isinstance(n.target, ast.Tuple):
+                k, v = [dotted(x) for x in n.target.elts]
+                for b in own_walk(n):
+                    if isinstance(b, ast.Call) and isinstance(b.func, ast.Attribute) and b.func.attr in ("force_set", "__setitem__", "setdefault") \
+                            and len(b.args) == 2 and dotted(b.args[0]) == k and dotted(b.args[1]) == v:
+                        M, how = dotted(b.func.value), b.func.attr
+                    if isinstance(b, ast.Assign) and isinstance(b.targets[0], ast.Subscript) and dotted(b.targets[0].slice) == k \
+                            and dotted(b.value) == v:
+                        M, how = dotted(b.targets[0].value), "item assignment"
+            if isinstance(n, ast.Call) and isinstance(n.func, ast.Attribute) and n.func.attr == "update" and n.args and dotted(n.args[0]) == var:
+                M, how = dotted(n.func.value), "update"
+        # every entry of the file is merged: the loop does not filter them by the executor's own selection
+        from .ref import _if_chains as _chains_of
+
+        ch_ = _chains_of(f.node)
+        for n in iter_own_nodes(f.node):
+            if isinstance(n, ast.For) and isinstance(n.iter, ast.Call) and isinstance(n.iter.func, ast.Attribute) \
+                    and n.iter.func.attr == "items" and dotted(n.iter.func.value) == var:
+                loop_tests = ch_.get(id(n), ())
+                for b in own_walk(n):
+                    st_ = None
+                    if isinstance(b, ast.Expr) and isinstance(b.value, ast.Call) and isinstance(b.value.func, ast.Attribute) \
+                            and b.value.func.attr in ("force_set", "__setitem__", "setdefault"):
+                        st_ = b
+                    elif isinstance(b, ast.Assign) and isinstance(b.targets[0], ast.Subscript):
+                        st_ = b
+                    if st_ is None:
+                        continue
+                    extra = [t for t, v_ in ch_.get(id(st_), ()) if all(t is not t0 for t0, _ in loop_tests)]
+                    sel = [t for t in extra if any(isinstance(x, ast.Attribute) and x.attr in ("graph", "target_nodes", "exclude_nodes", "root_nodes", "xn_dict")
+                                                      for x in ast.walk(t))]
+                    r.ob(not sel, {"merge of the cached entries filtered by": [norm_src(t) for t in extra] or None})
+                    # ... nor by the entry itself: whatever the key and the value (None, 0, '' are results like any other), the entry is merged
+                    from .val import reach_conditions
+
+                    ent = {x.id for x in ast.walk(n.target) if isinstance(x, ast.Name)}
+                    inner = reach_conditions(n, st_) or []
+                    dep = [(c_, p_) for c_, p_ in inner if ent & names_in(c_)]
+                    r.ob(not dep, {"in": f.short, "cached entry merged whatever its key / value": not dep})
+                    if dep:
+                        r.violate(f"{f.short}: a cached entry is merged only when {('' if dep[0][1] else 'not ') + norm_src(dep[0][0])}", f.loc(st_),
+                                  "an entry of the cache file that fails the test never reaches the scheduler: the node is in the file and is "
+                                  "executed again all the same (a node that really returned None / 0 / '' repeats its side effects)",
+                                  norm_src(dep[0][0]))
+                    if sel:
+                        r.violate(f"{f.short}: cached entries are merged only for nodes of this executor's selection", f.loc(st_),
+                                  "a result that is in the file but outside the restart's selection is dropped: the value comes back as None, "
+                                  "and a cache file re-written by this run loses it (the next restart recomputes it)", norm_src(sel[0]))
+        merge = _display_merge(f, var)
+        if M is None and merge is not None:
+            M, how = merge["target"], "dict display merge"
+        r.ob(M is not None, {"entries written into": M, "by": how})
+        if M is None:
+            r.violate(f"{f.short}: the unpickled mapping is not merged, entry by entry, into a results map", f.loc(ld),
+                      "the cached id -> value entries never reach the results handed to the scheduler: every node is silently "
+                      "recomputed (or the restart crashes)", norm_src(ld))
+            raise _Done()
+        # 2. M reaches the scheduler: returned and passed by the callers as the results argument of run_subgraph, or M is the
+        #    attribute the callers pass
+        sinks = 0
+        if "." in M:
+            raise Undecided(f"merged map is an attribute ({M}); flow through attributes is not modelled")
+        # 2a. the loader written (or expanded) in place: the merged map is handed to run_subgraph in this very function
+        direct = 0
+        for c2, q2 in ctx.calls_in(f):
+            if q2 in ctx.P.funcs and ctx.P.funcs[q2].name == "run_subgraph":
+                callee = ctx.P.funcs[q2]
+                a = arg_for_param(callee.node, c2, callee.node.args.args[2].arg, skip_self=True)
+                if a is not None and dotted(a) == M:
+                    direct += 1
+        if direct:
+            r.ob(True, {"in": f.short, "merged map handed to run_subgraph in place": direct})
+            return direct
         rets = [n for n in iter_own_nodes(f.node) if isinstance(n, ast.Return) and n.value is not None]
         returned = [x for x in rets if dotted(x.value) == M]
         ret_pos = None
@@ -109,7 +127,7 @@ def cache_flow(ctx: Ctx) -> RuleResult:
         r.ob(bool(returned) and len(returned) == len(rets), {"returned": bool(returned), "as element": ret_pos})
         if not returned:
             r.violate(f"{f.short}: the merged results are dropped (not returned)", f.loc(), "the cached entries never reach the scheduler", M)
-            return r
+            raise _Done()
         # M must start from the executor's results so that constants/setup results are kept
         init = [n for n in iter_own_nodes(f.node) if isinstance(n, ast.Assign) and dotted(n.targets[0]) == M]
         r.ob(len(init) >= 1, {"merged map initialised from": [norm_src(x.value) for x in init]})
@@ -143,7 +161,17 @@ def cache_flow(ctx: Ctx) -> RuleResult:
                 r.violate(f"{f2.short}: run_subgraph does not receive the results prepared by {f.name}", f2.loc(call),
                           "the scheduler starts from the DAG's own results: cached nodes are recomputed", None)
         if r.findings:
-            return r
+            raise _Done()
+        return sinks
+
+    total = 0
+    try:
+        for f, ld in hits:
+            total += _one(f, ld)
+    except _Done:
+        return r
+    sinks = total
+    if True:
         r.require(sinks >= 2, f"only {sinks} executor entry points consume the merged results (expected sync and async)")
         # 3. inside every run_subgraph the supplied results (when there are any) are what the scheduler starts from
         from .ref import _if_chains
@@ -210,8 +238,6 @@ def cache_flow(ctx: Ctx) -> RuleResult:
                           norm_src(sched[0])[:100])
             elif verdict is None:
                 raise Undecided(f"{rs.short}: cannot follow the supplied results to the scheduler's results argument")
-    else:
-        raise Undecided(f"merged map is an attribute ({M}); flow through attributes is not modelled")
     return r
 
 
